@@ -22,4 +22,5 @@ def run(ctx):
 
 def replay(ctx, violation):
     viols, sample = D11.scenario(ctx, user=True)
+    ctx.cleanup()
     return {"violated": bool(viols), "violations": viols, "observed": sample}
